@@ -38,14 +38,30 @@ def main() -> None:
                 related.add(pid)
         for f in files:
             related |= extra.get(f, set())
-        args = ["python3", os.path.join(ROOT, "tools", "seedcheck.py"), d]
-        args += ["--all"] if all_checks else ["--checks", ",".join(sorted(related))]
-        out = subprocess.run(args, capture_output=True, text=True, cwd=ROOT)
-        lines = [l for l in out.stdout.splitlines() if l.startswith("{")]
-        if lines:
+        def run(checks, skip_tests=False):
+            args = ["python3", os.path.join(ROOT, "tools", "seedcheck.py"), d]
+            args += ["--all"] if checks is None else ["--checks", ",".join(sorted(checks))]
+            if skip_tests:
+                args.append("--skip-tests")
+            out = subprocess.run(args, capture_output=True, text=True, cwd=ROOT)
+            lines = [l for l in out.stdout.splitlines() if l.startswith("{")]
+            return json.loads(lines[-1]) if lines else None
+
+        if all_checks:
+            res = run(None)
+        elif "--owner-first" in sys.argv:
+            # the owning check first; the sibling checks only when it does not report the change
+            res = run({prop})
+            if res and res["checks"].get(prop, {}).get("rc") != 1 and related - {prop}:
+                more = run(related - {prop}, skip_tests=True)
+                if more:
+                    res["checks"].update(more["checks"])
+        else:
+            res = run(related)
+        if res:
             with open(os.path.join(d, "seedcheck.json"), "w") as fh:
-                fh.write(lines[-1] + "\n")
-        print(name, "done", sorted(related), flush=True)
+                fh.write(json.dumps(res) + "\n")
+        print(name, "done", sorted(res["checks"]) if res else "NO RESULT", flush=True)
 
 
 if __name__ == "__main__":
